@@ -287,10 +287,12 @@ impl<'p> CoroutinePool<'p> {
     /// clean the task result data.
     pub fn clean_task_result(&self, task_id: u64) {
         if self.try_take_task_result(task_id).is_some() {
+            // the task has finished, a cancel request for it is stale
+            _ = CANCEL_TASKS.remove(&task_id);
             return;
         }
+        // a cancel request for a task that has not run yet stays in force
         _ = self.no_waits.insert(task_id);
-        _ = CANCEL_TASKS.remove(&task_id);
     }
 
     /// Use the given `task_id` to obtain task results, and if no results are found,
